@@ -209,3 +209,84 @@ func (pc *pCtx) p9BlockingWaits(s *pSite) {
 		}
 	}
 }
+
+// P2c (C03, C14): the releases a teardown makes are unconditional: every Unsubscribe / Stop / close it contains is on
+// every path through the teardown function (a guard that only tests the released value for nil is allowed). A teardown
+// that releases one thing *or* another leaves the other one subscribed.
+func (pc *pCtx) p2cUnconditionalRelease(s *pSite) {
+	props := []string{"C03", "C14"}
+	for ti, td := range s.Teardowns {
+		if td.Blocks == nil {
+			continue
+		}
+		n := 0
+		for _, b := range td.Blocks {
+			for _, ins := range b.Instrs {
+				call, ok := ins.(*ssa.Call)
+				if !ok {
+					continue
+				}
+				name := ""
+				if call.Common().IsInvoke() {
+					name = call.Common().Method.Name()
+				} else if f := call.Common().StaticCallee(); f != nil {
+					name = f.Name()
+				}
+				if name != "Unsubscribe" && name != "Stop" {
+					continue
+				}
+				n++
+				ok2 := onEveryPath(td, b, call)
+				pc.add(props, fmt.Sprintf("P2c/%s/teardown#%d/release#%d-is-unconditional", s.Name, ti+1, n),
+					"every release made by the returned teardown is made on every path through it", ok2,
+					"the teardown can return without making this release", pc.pos(call.Pos()))
+			}
+		}
+	}
+}
+
+// onEveryPath: every path from the entry of fn to a return passes through block b, ignoring branches that only test the
+// released receiver against nil.
+func onEveryPath(fn *ssa.Function, b *ssa.BasicBlock, call *ssa.Call) bool {
+	if len(fn.Blocks) == 0 || b == fn.Blocks[0] {
+		return true
+	}
+	seen := map[*ssa.BasicBlock]bool{b: true}
+	var stack []*ssa.BasicBlock
+	stack = append(stack, fn.Blocks[0])
+	for len(stack) > 0 {
+		cur := stack[len(stack)-1]
+		stack = stack[:len(stack)-1]
+		if seen[cur] {
+			continue
+		}
+		seen[cur] = true
+		if len(cur.Succs) == 0 {
+			if _, isRet := cur.Instrs[len(cur.Instrs)-1].(*ssa.Return); isRet {
+				return false // reached a return without passing b
+			}
+			continue
+		}
+		// a nil guard of the released value: follow only the non-nil branch
+		if iff, ok := cur.Instrs[len(cur.Instrs)-1].(*ssa.If); ok && len(cur.Succs) == 2 {
+			if bin, ok := iff.Cond.(*ssa.BinOp); ok {
+				isNilTest := func(x, y ssa.Value) bool {
+					c, ok := y.(*ssa.Const)
+					return ok && c.IsNil() && stripLoad(x) == stripLoad(call.Common().Value)
+				}
+				if isNilTest(bin.X, bin.Y) || isNilTest(bin.Y, bin.X) {
+					if bin.Op.String() == "!=" {
+						stack = append(stack, cur.Succs[0])
+						continue
+					}
+					if bin.Op.String() == "==" {
+						stack = append(stack, cur.Succs[1])
+						continue
+					}
+				}
+			}
+		}
+		stack = append(stack, cur.Succs...)
+	}
+	return true
+}
